@@ -652,6 +652,10 @@ pub fn crash_case(ctx: &Ctx, spec: &CrashSpec, rng: &mut Rng) -> CaseResult {
 pub struct FaultOutcome {
     pub res: CaseResult,
     pub surfaced: bool,
+    /// The faulted call appended a transaction and still returned Ok (the
+    /// fault hit after the commit marker was durable and the host re-read the
+    /// store): the acknowledgement is then checked for durability.
+    pub absorbed_after_durable_commit: bool,
 }
 
 pub fn fault_case(ctx: &Ctx, op_index: usize, target_name: &str) -> FaultOutcome {
@@ -693,6 +697,9 @@ pub fn fault_case(ctx: &Ctx, op_index: usize, target_name: &str) -> FaultOutcome
     };
     let _ = host.inject_runtime_wal_filesystem_fault_for_test(FilesystemWalFaultPlan::default());
     out.surfaced = !rec.ok;
+    out.absorbed_after_durable_commit = rec.ok
+        && target_name == "commit_marker_synced"
+        && rec.seg_len > op_index.checked_sub(1).map_or(0, |i| ctx.log.ops[i].seg_len);
     let res = &mut out.res;
     res.nontrivial = !rec.ok;
     // what must a reopen see?
@@ -996,6 +1003,119 @@ pub fn cycle_case(ctx: &Ctx, rng: &mut Rng, depth: usize) -> (CaseResult, Vec<Va
     (res, trace)
 }
 
+// ------------------------------------------------------------------ lane G ----
+
+/// Typed refusals: scheduler passes the filesystem-WAL host refuses (a pass
+/// whose receipt would carry no outcome for a staged submission; a multi-head
+/// batch). A refused call must leave the host and the log exactly as before.
+pub fn refusal_case(kind: &str) -> CaseResult {
+    use hostkit::IntentSpec;
+    let mut res = CaseResult::default();
+    let scratch = Scratch::new("c10-refusal");
+    let dir = scratch.path().join("wal");
+    let spec = |worldline: u8, slot: u8, amount: u32, decline: bool| IntentSpec {
+        worldline,
+        slot,
+        amount,
+        parents: vec![],
+        fake_parent: None,
+        decline,
+    };
+    let (n_worldlines, intents) = match kind {
+        "declined-intent-in-pass" => (1u8, vec![spec(0, 0, 1, false), spec(0, 1, 2, true)]),
+        "multi-head-pass" => (2u8, vec![spec(0, 0, 1, false), spec(1, 1, 2, false)]),
+        other => {
+            res.harness_error = Some(format!("unknown refusal scenario {other}"));
+            return res;
+        }
+    };
+    let mut host = match hostkit::open_host(&dir, n_worldlines) {
+        Ok(h) => h,
+        Err(e) => {
+            res.harness_error = Some(format!("open: {e:?}"));
+            return res;
+        }
+    };
+    let mut ids = Vec::new();
+    for (i, s) in intents.iter().enumerate() {
+        match host.app().submit_intent_with_runtime_wal_ack(hostkit::envelope(s, vec![])) {
+            Ok(h) => ids.push(h.submission_id),
+            Err(e) => {
+                res.harness_error = Some(format!("submit: {e:?}"));
+                return res;
+            }
+        }
+        if let Err(e) = host.stage_installed_contract_submission(ids[i], &hostkit::admission_ticket(20 + i as u8)) {
+            res.harness_error = Some(format!("stage: {e:?}"));
+            return res;
+        }
+    }
+    let before_exact = hostkit::fingerprint(&host, true);
+    let before = hostkit::fingerprint(&host, false);
+    let seg_before = read_or_empty(&segment_path(&dir));
+    let r = host.tick_once();
+    match r {
+        Ok(steps) => {
+            // accepted after all: then it is an acknowledged pass and must be durable
+            let after = hostkit::fingerprint(&host, false);
+            let copy = scratch.path().join("copy");
+            match copy_wal_dir(&dir, &copy).map(|()| hostkit::open_host(&copy, n_worldlines)) {
+                Ok(Ok(h2)) => {
+                    let d = hostkit::diff_fingerprints(&after, &hostkit::fingerprint(&h2, false));
+                    if !d.is_empty() {
+                        res.violations.push((
+                            "C10:acknowledged:missing-or-different".into(),
+                            format!("scenario {kind}: pass returned Ok({} steps) but a reopen differs: {}", steps.len(), d.join(" | ")),
+                        ));
+                    }
+                }
+                Ok(Err(e)) => res.violations.push((
+                    "C10:reopen:failed".into(),
+                    format!("scenario {kind}: pass returned Ok({} steps) and the log can no longer be reopened: {e:?}", steps.len()),
+                )),
+                Err(e) => res.harness_error = Some(e.to_string()),
+            }
+        }
+        Err(e) => {
+            res.nontrivial = true;
+            let d = hostkit::diff_fingerprints(&before_exact, &hostkit::fingerprint(&host, true));
+            if !d.is_empty() {
+                res.violations.push((
+                    "C10:refused-call:host-state-changed".into(),
+                    format!("scenario {kind}: tick_once refused with {e:?} but the host changed: {}", d.iter().take(6).cloned().collect::<Vec<_>>().join(" | ")),
+                ));
+            }
+            let copy = scratch.path().join("copy");
+            match copy_wal_dir(&dir, &copy).map(|()| hostkit::open_host(&copy, n_worldlines)) {
+                Ok(Ok(h2)) => {
+                    let d = hostkit::diff_fingerprints(&before, &hostkit::fingerprint(&h2, false));
+                    if !d.is_empty() {
+                        res.violations.push((
+                            "C10:refused-call:reopen-differs".into(),
+                            format!("scenario {kind}: after the refused pass a reopen differs from the pre-call state: {}", d.iter().take(6).cloned().collect::<Vec<_>>().join(" | ")),
+                        ));
+                    }
+                }
+                Ok(Err(e2)) => res.violations.push((
+                    "C10:reopen:failed".into(),
+                    format!("scenario {kind}: reopen after the refused pass failed: {e2:?}"),
+                )),
+                Err(e2) => res.harness_error = Some(e2.to_string()),
+            }
+            let p = segparse::parse(&read_or_empty(&segment_path(&dir)));
+            let p0 = segparse::parse(&seg_before);
+            if tx_list_expected(&p.committed()) != tx_list_expected(&p0.committed()) {
+                res.violations.push((
+                    "C10:refused-call:reopen-differs".into(),
+                    format!("scenario {kind}: the refused pass changed the committed transaction list"),
+                ));
+            }
+        }
+    }
+    res.acks_checked = ids.len() as u64;
+    res
+}
+
 // ------------------------------------------------------------------ lane F ----
 
 /// Incarnations that die (or simply exit) before their first commit: reopen
@@ -1185,6 +1305,7 @@ fn idle_pass_observation() -> Result<Value, String> {
         amount: 1,
         parents: vec![],
         fake_parent: None,
+        decline: false,
     };
     let h = host
         .app()
@@ -1213,7 +1334,10 @@ fn idle_pass_observation() -> Result<Value, String> {
 
 fn workload_for(seed: u64, index: u64, n_intents: usize) -> Workload {
     let mut rng = Rng::for_case(seed, "C10-workload", index);
-    Workload::generate(&mut rng, n_intents)
+    // Intents that the installed matcher declines are not generated here: with
+    // a runtime WAL a pass containing one is refused with a typed error
+    // (TickOutcomeUnavailable) and rolled back — see the refusal lane.
+    Workload::generate_with(&mut rng, n_intents, false)
 }
 
 fn report_case(rep: &mut Report, ctx: &Ctx, lane: &str, params: Value, res: &CaseResult) {
@@ -1396,6 +1520,9 @@ pub fn run(args: &Args) -> i32 {
                 if out.surfaced { "fault_surfaced_targets" } else { "fault_quiet_targets" },
                 t,
             );
+            if out.absorbed_after_durable_commit {
+                rep.count("faults_after_durable_commit_absorbed_and_ack_verified", 1);
+            }
             report_case(rep, &ctx, "store-fault", json!({"op_index": i, "target": t}), &out.res);
             fdone.fetch_add(1, std::sync::atomic::Ordering::Relaxed);
         });
@@ -1525,6 +1652,24 @@ pub fn run(args: &Args) -> i32 {
             }
         }
     }
+    for kind in ["declined-intent-in-pass", "multi-head-pass"] {
+        let res = refusal_case(kind);
+        rep.eval();
+        rep.count("refusal_scenarios", 1);
+        if let Some(e) = &res.harness_error {
+            rep.inconclusive(&format!("refusal {kind}: {e}"));
+        }
+        rep.observe("refusal_scenarios_refused", if res.nontrivial { kind } else { "(accepted)" });
+        if res.nontrivial {
+            rep.nontrivial(format!("refusal|{kind}").as_bytes());
+        }
+        let mut seen = BTreeSet::new();
+        for (sig, what) in &res.violations {
+            if seen.insert(sig.clone()) {
+                rep.violation(sig, what, json!({"lane": "refusal", "workload_index": 0, "workload": Workload { n_worldlines: 1, intents: vec![], ops: vec![] }.to_json(), "params": {"kind": kind}}));
+            }
+        }
+    }
     match idle_pass_observation() {
         Ok(v) => rep.set("observation_idle_scheduler_pass", v),
         Err(e) => rep.inconclusive(&format!("idle-pass observation: {e}")),
@@ -1600,6 +1745,7 @@ fn replay(args: &Args, path: &Path, mut rep: Report) -> i32 {
             println!("child: {how}");
             res
         }
+        "refusal" => refusal_case(params["kind"].as_str().unwrap_or("")),
         "empty-epoch" => empty_epoch_case(
             &ctx,
             params["p"].as_u64().unwrap_or(0) as usize,
